@@ -219,6 +219,245 @@ class DocRun:
         return self
 
 
+def is_subseq(a: list, b: list) -> bool:
+    it = iter(b)
+    return all(any(x == y for y in it) for x in a)
+
+
+EXN = {'ValueError': 1, 'IndexError': 2, 'KeyError': 3, 'AssertionError': 4, 'TypeError': 5}
+
+
+class HistoryRun(DocRun):
+    """A history of 3-8 steps on ONE entry / posting; the C18 statement is evaluated after every step against
+    the state current at that step (siblings, the parent's indent and indent_by as they are then)."""
+
+    def __init__(self, text: str, parent_index: int, hist: list[list]):
+        super().__init__(text, hist)
+        self.parent_index = parent_index
+        self.hcase = ''
+
+    def fail(self, sig, what, k):
+        self.fails.append({'sig': sig, 'what': what,
+                           'witness': {'text': self.text, 'parent': self.parent_index, 'hist': self.ops[:k]}})
+
+    def obs(self, parent, res: int) -> str:
+        return (f'mkhobs {res} {self.coq_items(self.items_of(parent))} {self.coq_optstr(self.parent_indent(parent))} '
+                f'{common.coq_str(parent.indent_by)}')
+
+    def run(self):
+        _, models, base, *_ = c17.impl()
+        from autobean_refactor.models import block_comment
+        f = c17.parse_file(self.text)
+        self.store = f.token_store
+        parents = [m for m in c17.walk(f) if hasattr(type(m), 'raw_meta_with_comments')]
+        if not parents:
+            return self
+        postings = [m for m in parents if isinstance(m, models.Posting)]
+        if self.parent_index % 2 and postings:
+            parent = postings[(self.parent_index // 2) % len(postings)]
+        else:
+            parent = parents[(self.parent_index // 2) % len(parents)]
+        is_posting = isinstance(parent, models.Posting)
+        head = (f'mkhcase {self.coq_optstr(self.parent_indent(parent))} {common.coq_str(parent.indent_by)} '
+                f'{self.coq_items(self.items_of(parent))}')
+        steps = []
+        for k, op in enumerate(self.ops, 1):
+            kind = op[0]
+            if kind in ('indent', 'comment') and not is_posting:
+                continue
+            text_b = self.printed()
+            lines_b = lines_of(text_b)
+            ib = [ind(x) for x in lines_b]
+            items = self.items_of(parent)
+            metas = [x for x in items if x[0] == 'M']
+            pind, by = self.parent_indent(parent), parent.indent_by
+            res, coq_op = 0, None
+            new_lines, removed, expect = None, None, None
+            try:
+                if kind == 'set':
+                    key = op[1]
+                    value = {'s': 'v', 'd': decimal.Decimal(3), 'n': None}[op[2]]
+                    existing = any(x[2] == key for x in metas)
+                    coq_op = f'HSetItem {self.key_id(key)}'
+                    parent.meta[key] = value
+                    if not existing:
+                        if metas and len({x[1] for x in metas}) == 1:
+                            expect = metas[0][1]
+                            self.stat('hist:rule=shared')
+                        elif not metas:
+                            expect = (pind or '') + by
+                            self.stat('hist:rule=default' + ('/posting' if is_posting else '/entry')
+                                      + ('/after-change' if any(o[0] in ('indent_by', 'indent') for o in self.ops[:k - 1])
+                                         else ''))
+                        else:
+                            self.stat('hist:rule=siblings-disagree')
+                        created = [it for it in parent.raw_meta if it.key == key][-1]
+                        new_lines = lines_of(''.join(t.raw_text for t in created.tokens))
+                        if expect is not None and (created.indent != expect
+                                                   or not new_lines[0].startswith(expect + key + ':')):
+                            self.fail('C18:meta-indent',
+                                      f'step {k}: {type(parent).__name__}.meta[{key!r}] created the line {new_lines[0]!r}; '
+                                      f'the rule gives indent {expect!r} (siblings {[x[1] for x in metas]!r}, current parent '
+                                      f'indent {pind!r}, current indent_by {by!r})', k)
+                    else:
+                        self.stat('hist:existing-key')
+                elif kind == 'append':
+                    key, indent = op[1], op[2]
+                    coq_op = f'HAppendRaw (M {common.coq_str(indent)} {self.key_id(key)})'
+                    parent.raw_meta.append(models.MetaItem.from_value(key, 'v', indent=indent))
+                    new_lines = [f'{indent}{key}: "v"']
+                elif kind == 'append_comment':
+                    indent = op[1]
+                    coq_op = f'HAppendRaw (C {common.coq_str(indent)})'
+                    parent.raw_meta_with_comments.append(models.BlockComment.from_value('raw c', indent=indent))
+                    new_lines = [f'{indent}; raw c']
+                elif kind == 'insert':
+                    index, key, indent = op[1], op[2], op[3]
+                    coq_op = f'HInsertRaw {common.coq_z(index)} (M {common.coq_str(indent)} {self.key_id(key)})'
+                    parent.raw_meta.insert(index, models.MetaItem.from_value(key, 'v', indent=indent))
+                    new_lines = [f'{indent}{key}: "v"']
+                elif kind in ('del', 'pop', 'clear'):
+                    raw = [it for it in parent.raw_meta]
+                    if kind == 'del':
+                        coq_op = f'HDelKey {self.key_id(op[1])}'
+                        victims = [it for it in raw if it.key == op[1]][:1]
+                    elif kind == 'pop':
+                        coq_op = 'HPop'
+                        victims = raw[-1:]
+                    else:
+                        coq_op = 'HClear'
+                        victims = raw
+                    removed = sum(len(lines_of(''.join(t.raw_text for t in it.tokens))) for it in victims)
+                    if kind == 'del':
+                        del parent.meta[op[1]]
+                    elif kind == 'pop':
+                        parent.meta.pop()
+                    else:
+                        parent.meta.clear()
+                    self.stat('hist:' + kind)
+                elif kind == 'indent_by':
+                    coq_op = f'HSetIndentBy {common.coq_str(op[1])}'
+                    parent.indent_by = op[1]
+                    self.stat('hist:indent_by')
+                elif kind == 'indent':
+                    coq_op = f'HSetIndent {common.coq_str(op[1])}'
+                    idx = {id(t): n for n, t in enumerate(self.store)}
+                    off = sum(len(t.raw_text) for t in list(self.store)[:idx[id(parent.raw_indent.first_token)]])
+                    line_no = text_b[:off].count('\n')
+                    parent.indent = op[1]
+                    self.stat('hist:indent')
+                elif kind == 'comment':
+                    side, value = op[1], op[2]
+                    attr = side + '_comment'
+                    cur = getattr(parent, 'raw_' + attr)
+                    cur_indent = cur.indent if cur is not None else None
+                    cur_lines = lines_of(cur.raw_text) if cur is not None else []
+                    setattr(parent, attr, value)
+                    new = getattr(parent, 'raw_' + attr)
+                    split = block_comment._splitlines(value) if value is not None else None
+                    self.comment_cases.append(
+                        f'({self.coq_optstr(cur_indent)}, {common.coq_str(pind)}, '
+                        f'{common.coq_opt(common.coq_list(common.coq_str(x) for x in split) if split is not None else None)}, '
+                        f'{common.coq_opt("(" + common.coq_str(new.indent) + ", " + common.coq_str(new.raw_text) + ")" if new is not None else None)})')
+                    c_new = lines_of(new.raw_text) if new is not None else []
+                    if cur is None and value is not None:
+                        self.stat('hist:comment-create')
+                        if new.indent != pind or not all(x.startswith(pind + ';') for x in c_new):
+                            self.fail('C18:comment-indent', f'step {k}: Posting.{attr} = {value!r}: lines {c_new!r} do not '
+                                      f'all start with the posting\'s current indent {pind!r}', k)
+                    if cur is not None and value is not None and not all(x.startswith(cur_indent + ';') for x in c_new):
+                        self.fail('C18:frame', f'step {k}: Posting.{attr} = {value!r} changed the indentation of the '
+                                  f'existing comment', k)
+                    if frame(lines_b, lines_of(self.printed()), len(cur_lines), c_new) is None:
+                        self.fail('C18:frame', f'step {k}: Posting.{attr} = {value!r}: the indentation of another line '
+                                  f'changed', k)
+            except (KeyError, IndexError) as e:
+                res = EXN[common.exn_name(e)] if common.exn_name(e) in EXN else 8
+                legit = (kind == 'del' and not any(x[2] == op[1] for x in metas)) or (kind == 'pop' and not metas)
+                if not legit:
+                    self.fail('C18:unexpected-exception', f'step {k}: {kind} raised {type(e).__name__}: {e}', k)
+                    break
+            except Exception as e:
+                self.fail('C18:unexpected-exception', f'step {k}: {kind} raised {type(e).__name__}: {e}', k)
+                break
+            lines_a = lines_of(self.printed())
+            ia = [ind(x) for x in lines_a]
+            if kind == 'comment':
+                pass
+            elif res:
+                if lines_a != lines_b:
+                    self.fail('C18:frame', f'step {k}: a refused {kind} changed the text', k)
+            elif kind == 'indent':
+                want = list(ib)
+                want[line_no] = op[1]
+                if ia != want:
+                    self.fail('C18:frame', f'step {k}: posting.indent = {op[1]!r} changed the indentation of a line other '
+                              f'than the posting\'s own', k)
+            elif kind == 'indent_by':
+                if lines_a != lines_b:
+                    self.fail('C18:frame', f'step {k}: assigning indent_by changed the text', k)
+            elif removed is not None:
+                if len(lines_b) - len(lines_a) != removed or not is_subseq(ia, ib):
+                    self.fail('C18:frame', f'step {k}: {kind}: the indentation of a remaining line changed', k)
+            elif new_lines is None:
+                if ia != ib:
+                    self.fail('C18:frame', f'step {k}: assigning to an existing key changed the indentation of a line', k)
+            elif frame(lines_b, lines_a, 0, new_lines) is None:
+                self.fail('C18:frame' if kind == 'set' else 'C18:raw-kept',
+                          f'step {k}: {kind} on {type(parent).__name__}: the text is not the old text plus the line(s) '
+                          f'{new_lines!r} with every other line\'s indentation unchanged', k)
+            if coq_op is not None:
+                steps.append(f'({coq_op}, {self.obs(parent, res)})')
+            if self.fails:
+                break
+        self.hcase = f'{head} {common.coq_list(steps)}'
+        self.n_steps = len(steps)
+        return self
+
+
+def gen_history(rng) -> list[list]:
+    ws = lambda: rng.choice(c17.INDENTS + ['', '   ', '\t '])
+    nonempty_ws = lambda: rng.choice(c17.INDENTS)
+    fresh = iter(['h%d' % i for i in range(40)])
+
+    def rand_op():
+        r = rng.random()
+        if r < 0.28:
+            return ['set', rng.choice([next(fresh)] * 2 + c17.KEYS), rng.choice(['s', 's', 'd', 'n'])]
+        if r < 0.38:
+            return ['append', next(fresh), ws()]
+        if r < 0.44:
+            return ['append_comment', ws()]
+        if r < 0.52:
+            return ['insert', rng.choice([0, 0, 1, 2, -1, -2, 5, -7]), next(fresh), ws()]
+        if r < 0.60:
+            return ['del', rng.choice(c17.KEYS + ['h0', 'h1'])]
+        if r < 0.66:
+            return ['pop']
+        if r < 0.72:
+            return ['clear']
+        if r < 0.82:
+            return ['indent_by', rng.choice(INDENT_BYS)]
+        if r < 0.90:
+            return ['indent', nonempty_ws()]
+        return ['comment', rng.choice(['leading', 'trailing']),
+                rng.choice(['note', 'two\nlines', '', None, 'x\n'])]
+    n = rng.randrange(3, 9)
+    if rng.random() < 0.5:
+        # use the default rule, empty the block again, change what the rule reads, use the rule again
+        k1 = next(fresh)
+        hist = [['clear'], ['set', k1, 's'], rng.choice([['clear'], ['pop'], ['del', k1]]),
+                rng.choice([['indent_by', rng.choice(INDENT_BYS)], ['indent', nonempty_ws()],
+                            ['indent_by', rng.choice(INDENT_BYS)]]),
+                ['set', next(fresh), 's']]
+        if rng.random() < 0.5:
+            hist.insert(rng.randrange(1, len(hist)), rand_op())
+        while len(hist) < n:
+            hist.append(rand_op())
+        return hist
+    return [rand_op() for _ in range(n)]
+
+
 def gen_ops(rng, n_ops: int) -> list[list]:
     ops: list[list] = []
     ws = lambda: rng.choice(c17.INDENTS + ['', '   ', '\t '])
@@ -271,6 +510,36 @@ def run_all(ctx: common.Ctx):
         for c in run.comment_cases:
             ccases.append(c)
             cmetas.append((text, ops))
+    # histories on one entry / posting
+    hcases, hmetas = [], []
+    for _ in range(ctx.scale(300, 4000)):
+        text = c17.gen_ledger(ctx.rng, ctx.rng.choice([1, 1, 2]))
+        try:
+            c17.parse_file(text)
+        except Exception:
+            ctx.count('generated_not_accepted')
+            continue
+        pidx, hist = ctx.rng.randrange(1000), gen_history(ctx.rng)
+        run = HistoryRun(text, pidx, hist).run()
+        for f_ in run.fails:
+            ctx.monitor_failure(f_['sig'], f_['what'], f_['witness'])
+        for key, v in run.stats.items():
+            ctx.dist(key, v)
+        ctx.case({'chars': len(text), 'parent': pidx, 'hist': [o[0] for o in hist], 'stats': run.stats},
+                 nontrivial=any(k.startswith('hist:rule=') for k in run.stats))
+        ctx.count('history_steps', getattr(run, 'n_steps', 0))
+        if run.hcase:
+            hcases.append(run.hcase)
+            hmetas.append((text, pidx, hist))
+        for c in run.comment_cases:
+            ccases.append(c)
+            cmetas.append((text, hist))
+    bad = ctx.run_coq_cases('hist', PREAMBLE, 'hcase', 'check_hcase', hcases, chunk=100)
+    ctx.count('traces_validated_against_impl', len(hcases) - len(bad))
+    for i in bad[:3]:
+        ctx.fail('corr', 'indent-history-correspondence',
+                 'Indent.v and the implementation disagree on the state of a meta block along a history of edits',
+                 {'text': hmetas[i][0], 'parent': hmetas[i][1], 'hist': hmetas[i][2], 'case': hcases[i][:1500]})
     bad = ctx.run_coq_cases('indent', PREAMBLE, 'icase', 'check_case', cases, chunk=150)
     ctx.count('traces_validated_against_impl', len(cases) - len(bad))
     for i in bad[:3]:
@@ -290,7 +559,9 @@ def run(ctx: common.Ctx):
     ctx.rule = ('generated ledgers (entries and postings with no / uniform / tab / disagreeing meta indents, interleaved '
                 'comments, CRLF) parsed with the real Parser; per ledger a seeded history of indent_by assignments, '
                 'mapping assignments (new and existing keys), raw appends/inserts of MetaItem and BlockComment with '
-                'their own indent, leading/trailing comment assignments on postings and meta items; a case is '
+                'their own indent, leading/trailing comment assignments on postings and meta items; plus histories of 3-8 '
+                'steps on one entry/posting mixing those with del/pop/clear, indent_by = ..., posting.indent = ... (half of '
+                'them: use the default rule, empty the block, change indent/indent_by, use the rule again); a case is '
                 'non-trivial when an insertion rule or a comment creation was exercised; distinct by (size, ops, rules)')
     ctx.assumptions += ['the tree/token mechanics of insertion (RepeatedNodeWrapper._insert_tokens) belong to C03; here the '
                         'result is observed on the printed text and on raw_meta_with_comments',
@@ -307,6 +578,13 @@ def replay(ctx, path):
     data = json.loads(open(path).read())
     f = data.get('failure') or (data.get('what_no_longer_checks') or [{}])[0]
     w = f.get('witness') or {}
+    if 'hist' in w:
+        run = HistoryRun(w['text'], w['parent'], w['hist']).run()
+        for x in run.fails:
+            print('monitor:', x['sig'], x['what'])
+        bad = ctx.run_coq_cases('replayh', PREAMBLE, 'hcase', 'check_hcase', [run.hcase]) if run.hcase else []
+        print('model/implementation agree' if not bad else 'model/implementation DISAGREE')
+        return 1 if (run.fails or bad) else 0
     if 'text' in w:
         run = DocRun(w['text'], w.get('ops', [])).run()
         for x in run.fails:
